@@ -23,7 +23,7 @@ def run(tier, seed):
     # redirect rules and redirect exceptions added one at a time to a blocker whose resources are loaded, replaced and
     # extended along the way (Blocker::add_filter files a rule in several lists; resources are looked up at query time)
     from checks import enginecommon
-    _, reph, _ = enginecommon.histories(v, wd, "blocker", 3 if tier == "quick" else 4, initset="res")
+    _, reph, _ = enginecommon.histories(v, wd, "blocker", 4 if tier == "quick" else 5, initset="res", ops="radd")
     vlib.require(reph["nontrivial"] > 30, "resource/add_filter history replay too small")
     v.assumptions += ["resources carry their own name as content so that the served data-URL identifies the chosen resource",
                       "third-party computed in the spec with single-label public suffixes"]
